@@ -280,6 +280,68 @@ def _stack_sig():
     return tuple(out)
 
 
+class FreeSched:
+    """Stand-in for Sched when a harness body runs free on real threads (conformance runs)."""
+
+    aborting = False
+
+    def __init__(self):
+        self.events = []
+        self.ctx = None
+        self.main_result = None
+        self.uncaught = []
+        self.deadlock_info = None
+
+    def log(self, *ev):
+        self.events.append(ev)
+
+    def choose_value(self, n, label, budget="random"):
+        import random as _r
+
+        return _r.randrange(n)
+
+
+def free_run(harness, timeout=60):
+    """Run harness.body once on real threads, no scheduler.  Returns an Execution-like object."""
+    s = FreeSched()
+    CUR[0] = s
+    x = Execution()
+    try:
+        ctx = harness.setup(s)
+        s.ctx = ctx if s.ctx is None else s.ctx
+
+        def body():
+            try:
+                s.main_result = ("ret", harness.body(ctx))
+            except BaseException as e:  # noqa
+                s.main_result = ("exc", e)
+
+        before = set(_rt.enumerate())
+        old_hook = _rt.excepthook
+
+        def hook(args):
+            s.uncaught.append((getattr(args.thread, "name", "?"), repr(args.exc_value)))
+
+        _rt.excepthook = hook
+        t = _rt.Thread(target=body, daemon=True)
+        t.start()
+        t.join(timeout)
+        x.status = "ok" if not t.is_alive() else "deadlock"
+        if x.status == "deadlock":
+            s.deadlock_info = "free-running body did not return within %ss" % timeout
+        else:
+            leaked = [th for th in _rt.enumerate() if th not in before and th is not t and th.is_alive()]
+            if leaked:
+                s.uncaught.append(("leaked threads after return", repr(leaked)))
+    finally:
+        CUR[0] = None
+        _rt.excepthook = old_hook
+    x.points = []
+    x.sched = s
+    x.ctx = ctx
+    return x
+
+
 def sched():
     s = CUR[0]
     if s is None:
@@ -767,6 +829,7 @@ class Stats:
         self.outcomes = {}
         self.statuses = {}
         self.violations = []  # (message, choices)
+        self.tagcount = {}
         self.capped = False
 
     def merge(self, o):
@@ -779,6 +842,8 @@ class Stats:
         for k, v in o.statuses.items():
             self.statuses[k] = self.statuses.get(k, 0) + v
         self.violations.extend(o.violations)
+        for k, v in o.tagcount.items():
+            self.tagcount[k] = self.tagcount.get(k, 0) + v
         self.capped = self.capped or o.capped
         return self
 
@@ -803,10 +868,15 @@ def dfs(harness, root, budget, stats=None, max_exec=None, max_viol=3, expand_roo
         msgs, okey = harness.check(x)
         stats.outcomes[okey] = stats.outcomes.get(okey, 0) + 1
         if msgs:
-            if len(stats.violations) < max_viol:
+            # keep up to max_viol full counterexamples (with schedule) per oracle tag
+            keep = False
+            for tag in {t for t, _ in msgs}:
+                k = stats.tagcount.get(tag, 0)
+                stats.tagcount[tag] = k + 1
+                if k < max_viol:
+                    keep = True
+            if keep:
                 stats.violations.append((msgs, x.choices()))
-            else:
-                stats.violations.append((msgs[:1], None))
         ch = children(x, len(p), budget)
         if first and not expand_root:
             return stats, ch
